@@ -1,7 +1,7 @@
 (* C02 — CometBFT's validator set always equals the chain's own bonded set and powers. *)
 From stdpp Require Import gmap.
 Require Import Model.Base Model.Validate Model.State Model.Staking Model.Slashing Model.Poa Model.App.
-Require Import proofs.Inv proofs.InvIdx proofs.InvPres proofs.InvMsgs proofs.InvHistory proofs.InvComet proofs.InvElig.
+Require Import proofs.Inv proofs.InvIdx proofs.InvPres proofs.InvMsgs proofs.InvHistory proofs.InvComet proofs.InvElig proofs.InvTop.
 
 (* after every block of every history that has not halted — any number of blocks, any in-block order of CreateValidator,
    SetPower safe/unsafe, RemoveValidator, RemovePending, UpdateStakingParams, unjail, any downtime pattern, empty blocks,
@@ -67,6 +67,27 @@ Proof.
   intros g bs Hg s. destruct (reachable_CI g bs Hg) as [HS _]. split.
   - apply (NoDup_map_inv snd). exact (si_unique _ HS).
   - apply pos_keys_are_eligible; [exact HS|apply reachable_IC].
+Qed.
+
+(* ... and whatever max_validators is: after any block applied to any reachable state, the last validator set (hence,
+   by C02_comet_set_is_last_powers, CometBFT's next set) consists of exactly the first max_validators entries with a
+   positive power of the power index the EndBlocker met, in its iteration order (power descending, operator ascending),
+   each at that power; those entries are unjailed validators at their token power, and nobody left out is stronger *)
+Theorem C02_set_is_the_strongest_max_validators : forall g bs b c2,
+  wf_genesis g ->
+  let w := run_world (init_world g) bs in
+  w_halted w = None -> before_endblock w b = Some c2 -> w_halted (fst (run_block w b)) = None ->
+  (forall id, last_pow (stk (w_chain (fst (run_block w b)))) !! id = top_power id (selected c2)) /\
+  (forall p id, In (p, id) (selected c2) -> exists v, vals (stk c2) !! id = Some v /\ v_jailed v = false /\ p = v_power v /\ 0 < p) /\
+  Z.of_nat (length (selected c2)) <= Z.max 0 (sp_max_validators (params (stk c2))) /\
+  (forall p id q j, In (p, id) (selected c2) -> In (q, j) (pidx (stk c2)) -> 0 < q -> ~ In (q, j) (selected c2) -> q <= p).
+Proof.
+  intros g bs b c2 Hg w Hh Hb Hh'. pose proof (reachable_CI g bs Hg) as HCI. fold w in HCI.
+  assert (HC2 : CI c2).
+  { unfold before_endblock in Hb. destruct (begin_block _ _ _) as [c1|] eqn:Eb; [|discriminate]. inversion Hb; subst.
+    apply deliver_txs_CI. eapply begin_block_CI; [|exact Eb]. apply CI_clock. exact HCI. }
+  split; [exact (block_set_is_the_top w b c2 HCI Hh Hb Hh')|]. destruct (selected_spec c2 HC2) as [A B].
+  split; [exact A|]. split; [exact B|]. intros p id q j. apply selection_takes_the_strongest.
 Qed.
 
 (* whenever CometBFT accepts a block's updates, its new set is the old one with the updates applied one by one *)
